@@ -630,12 +630,10 @@ class Interp:
 
     def _pick_by_vname(self, fs, vcallee, callee):
         if vcallee:
-            m = re.search(r'get_atom(#\d+)?', vcallee)
-            tag = m.group(0) if m else None
-            for f in fs:
-                if f.vname and tag and re.search(re.escape(tag) + r'(\(|$|::)', f.vname.split('::')[-1] + '('):
-                    if _strip_generics(f.vname).split('::')[-2] == _strip_generics(vcallee).split('::')[-2]:
-                        return f
+            want = _vtail(vcallee)
+            hits = [f for f in fs if f.vname and _vtail(f.vname) == want]
+            if len(hits) == 1:
+                return hits[0]
         raise Unsupported('ambiguous callee ' + callee)
 
     def call_closure(self, ctx, c, args):
@@ -657,6 +655,8 @@ class Interp:
     def run(self, ctx, fn, args):
         if isinstance(fn, str):
             fn = self.fn(fn)
+        if fn.name.endswith('::get_atom'):
+            return self._atom_literal(fn)
         fr = Frame(fn)
         env = fr.env
         for name, v in zip(fn.params, args):
@@ -742,6 +742,29 @@ class Interp:
             if ctx.steps > self.max_steps:
                 raise StepLimit(fname)
 
+    def _atom_literal(self, fn):
+        """`atom!("x")` expands to a nested `fn get_atom()` reading a Lazy static whose initialiser closure (printed right
+        before it in the dump) builds the atom from a string literal; the literal is read from that closure's MIR."""
+        best = None
+        if fn.vname:
+            needle = '>::' + _vtail(fn.vname) + '::CACHE::'
+            for name, fs in self.prog.fns.items():
+                if name.endswith('get_atom::CACHE::{closure#0}'):
+                    for f in fs:
+                        if f.vsig and needle in f.vsig:
+                            best = f
+        if best is None:
+            for name, fs in self.prog.fns.items():
+                if name.endswith('get_atom::CACHE::{closure#0}'):
+                    for f in fs:
+                        if f.line > fn.line and (best is None or f.line < best.line):
+                            best = f
+        if best is not None:
+            for st in best.blocks.get('bb0', []):
+                if st[0] == 'call' and st[3] and st[3][0][0] == 'const' and st[3][0][1].startswith('"'):
+                    return SStr.of(_unescape(st[3][0][1][1:-1]))
+        raise Unsupported('atom! literal of %s not found' % fn.name)
+
     def fn(self, name, nth=0):
         """look up a crate function by (suffix of) its printed name."""
         if name in self.prog.fns:
@@ -752,6 +775,12 @@ class Interp:
         if not hits:
             raise Unsupported('function %s is not in the MIR dump' % name)
         raise Unsupported('function name %s is ambiguous (%d)' % (name, len(hits)))
+
+
+def _vtail(v):
+    """item path after the impl head of a verbose (-Zverbose-internals) name: 'infer_runtime_type::get_atom#3'"""
+    v = re.sub(r'[})\s]+$', '', v)
+    return v.split('>::')[-1]
 
 
 def _norm_ty(t):
